@@ -130,19 +130,17 @@ port ≤ 65535, no `.`/`..` segment in the path, every char of auth/path/query/f
 component's allowed set or part of an upper-case valid escape.
 
 Proved here: the character clause for all four components (for the path *including* the `/` that
-`Url.__new__` may prepend), together with `C14_port_bound` and `C14_scheme_lower` above (which hold for
-every scheme).  Missing from the composed statement:
- * "no dot segment in `u.path`" — proved for the output of `removeDotSegments`
-   (`C14_dotseg_no_dot_segment`), not transported through the percent-encoder (which maps `/` to `/`
-   and never produces a bare `.` from anything but `.`);
- * "host lower-case" — holds by construction in `normalizeHost` for the address part / reg-name, an
-   RFC 6874 zone id keeps its case; not stated as a theorem.
-Both clauses are checked on every generated input by the implementation-side oracle.
+`Url.__new__` may prepend) and the dot-segment clause for the final path (the encoder acts
+segment-wise and never turns a segment into `.` or `..`), together with `C14_port_bound` and
+`C14_scheme_lower` above (which hold for every scheme).  The only clause not in this theorem is
+"host lower-case", which is `C14_host_lower` below (a separate theorem because an RFC 6874 zone id
+keeps its case and the IDNA answers enter through a contract).
 -/
-theorem C14_normal_form_partial (idna : Str → Option Str) (s : Str) (u : Url)
+theorem C14_normal_form (idna : Str → Option Str) (s : Str) (u : Url)
     (h : parseUrlWith idna s = .ok u) (hs : u.scheme ∈ [some http, some https, none]) :
     (∀ x, u.auth = some x → NormalForm Gen.userinfoChars x) ∧
     (∀ x, u.path = some x → NormalForm Gen.pathChars x) ∧
+    (∀ x, u.path = some x → ∀ seg ∈ splitOn1 47 x, seg ≠ dot ∧ seg ≠ dotdot) ∧
     (∀ x, u.query = some x → NormalForm Gen.queryChars x) ∧
     (∀ x, u.fragment = some x → NormalForm Gen.fragmentChars x) := by
   rcases parseUrlWith_ok h with rfl | ⟨sc, au, ho, po, pa, q, f, hc, rfl⟩
@@ -153,32 +151,28 @@ theorem C14_normal_form_partial (idna : Str → Option Str) (s : Str) (u : Url)
       rw [← hsc]
       simpa [mkUrl, http, https] using hs
     rw [hn] at hauth hpa hq hf
-    refine ⟨?_, ?_, ?_, ?_⟩
+    refine ⟨?_, ?_, ?_, ?_, ?_⟩
     · intro x hx
       exact parseAuthority_auth_normal hauth x (by simpa [mkUrl] using hx)
     · intro x hx
       have hpn : NormalForm Gen.pathChars pa := hpa ▸ normPath_normal p0
-      simp only [mkUrl] at hx
-      split at hx
-      · rename_i p hp
-        split at hp
-        · split at hp
-          · simp only [Option.some.injEq] at hp; subst hp
-            simp only [List.isEmpty_nil, Bool.not_true, Bool.false_and, Bool.false_eq_true, if_false,
-              Option.some.injEq] at hx
-            subst hx; exact normalForm_nil _
-          · simp at hp
-        · simp only [Option.some.injEq] at hp; subst hp
-          split at hx
-          · simp only [Option.some.injEq] at hx; subst hx
-            exact normalForm_cons _ 47 _ (by decide) hpn
-          · simp only [Option.some.injEq] at hx; subst hx; exact hpn
-      · simp at hx
+      rw [mkUrl_path hx]
+      unfold finalPath
+      split
+      · exact normalForm_cons _ 47 _ (by decide) hpn
+      · exact hpn
+    · intro x hx
+      rw [mkUrl_path hx, hpa]
+      exact cleanJoin_no_dots (finalPath_clean p0)
     · intro x hx
       exact normOpt_normal encSet_query x (by rw [← hq]; simpa [mkUrl] using hx)
     · intro x hx
       exact normOpt_normal encSet_fragment x (by rw [← hf]; simpa [mkUrl] using hx)
 
+-- non-vacuity: "http://h/a/./%2e/x/../b" : the literal dot segments go, the *escaped* dot stays as
+-- "%2E" (it is not a dot segment) and nothing the encoder emits is one
+example : parseUrl [104, 116, 116, 112, 58, 47, 47, 104, 47, 97, 47, 46, 47, 37, 50, 101, 47, 120, 47, 46, 46, 47, 98] =
+    .ok ⟨some http, none, some [104], none, some [47, 97, 47, 37, 50, 69, 47, 98], none, none⟩ := by decide
 -- non-vacuity: "HTTP://u%3a@H/a b?%zz#é" parses, with scheme http
 example : (parseUrl [72, 84, 84, 80, 58, 47, 47, 117, 37, 51, 97, 64, 72, 47, 97, 32, 98, 63, 37, 122, 122, 35, 233]).toOption.map (·.scheme)
     = some (some http) := by decide
